@@ -92,6 +92,8 @@ func main() {
 		shippedMode(args)
 	case "c14":
 		c14Mode(args)
+	case "c14one":
+		c14OneMode(args)
 	case "c13":
 		c13Mode(args)
 	case "c17":
